@@ -122,7 +122,7 @@ def mutations(h, sigma):
             continue
         v = int(num)
         for label, rep in (("zeropad", "0" + num), ("plus1", str(v + 1)), ("minus1", str(v - 1)), ("neg", "-" + num),
-                           ("empty", ""), ("huge", "1" + "0" * 30), ("zero", "0"), ("hex", hex(v)), ("space", " " + num)):
+                           ("empty", ""), ("huge", "1" + "0" * 30), ("hugedigits", "9" * 5000), ("zero", "0"), ("hex", hex(v)), ("space", " " + num)):
             if rep != num:
                 out.append((f"num@{a}:{label}", h[:a] + rep + h[b:]))
     for label, s in (("empty", ""), ("blank", " "), ("nul", "\x00"), ("dollar", "$"), ("dollars", "$$$"), ("x", "x"),
